@@ -5,7 +5,7 @@ from props import judges
 from props.common import TRUSTED_BASE, ASSUMPTIONS
 
 ID = "C16"
-LEAN_MODULES = ["LexVerif.Props.Literals.UtilAlgorithm", "LexVerif.Props.Literals.UtilExtendedFloat", "LexVerif.Props.C16", "LexVerif.Props.C04", "LexVerif.Props.RoundNE", "LexVerif.Props.TablesParse", "LexVerif.Props.Literals.ParseFloatParse", "LexVerif.Props.Literals.ParseFloatFloat", "LexVerif.Props.Literals.ParseFloatBigint", "LexVerif.Props.Literals.ParseIntegerAlgorithm", "LexVerif.Props.Literals.WriteFloatWrite", "LexVerif.Props.Literals.WriteIntegerWrite", "LexVerif.Props.Literals.UtilIterator"]
+LEAN_MODULES = ["LexVerif.Props.Literals.UtilLibm", "LexVerif.Props.Literals.ParseFloatLibm", "LexVerif.Props.Literals.ParseFloatFpu", "LexVerif.Props.Literals.UtilAlgorithm", "LexVerif.Props.Literals.UtilExtendedFloat", "LexVerif.Props.C16", "LexVerif.Props.C04", "LexVerif.Props.RoundNE", "LexVerif.Props.TablesParse", "LexVerif.Props.Literals.ParseFloatParse", "LexVerif.Props.Literals.ParseFloatFloat", "LexVerif.Props.Literals.ParseFloatBigint", "LexVerif.Props.Literals.ParseIntegerAlgorithm", "LexVerif.Props.Literals.WriteFloatWrite", "LexVerif.Props.Literals.WriteIntegerWrite", "LexVerif.Props.Literals.UtilIterator"]
 GEN = ["parse_tables", "literals"]
 TRUSTED = TRUSTED_BASE + [
     "feature independence of the float algorithms is derived from 'each build equals the same oracle' and is therefore only as strong as C01/C02 for floats; for integer parsing it follows from the proved C04 theorem (the model has no feature-dependent branch for the decimal default API)",
